@@ -49,14 +49,14 @@ class C06(Check):
     def bounds(self, tier):
         if tier == 'quick':
             return {'single': 'T<=3,K=2,n=1, beta scalar|vector, limit 1..2', 'joint': '2 series of 1..2 windows, K=2'}
-        return {'single': 'T<=4,K<=3,n<=2, beta scalar|vector, limit 1..2', 'joint': '2..3 series of 1..2 windows, K=2'}
+        return {'single': 'T<=4,K<=3,n<=2, beta scalar|vector, limit 1 (limit 2 for K^T <= 8)', 'joint': '2..3 series of 1..2 windows, K=2'}
 
     def configs(self, tier):
         q = tier == 'quick'
         cfgs = []
         for (T, K, n) in ([(2, 2, 1), (3, 2, 1)] if q else [(2, 2, 1), (3, 2, 1), (4, 2, 1), (3, 3, 1), (3, 2, 2), (4, 3, 1)]):
             for form in ('scalar', 'vector'):
-                for lim in (1, 2):
+                for lim in ((1, 2) if K ** T <= 8 else (1,)):
                     cfgs.append(Config('single_T%d_K%d_n%d_%s_lim%d' % (T, K, n, form, lim), self.single,
                                        {'T': T, 'K': K, 'n': n, 'form': form, 'lim': lim},
                                        split=4, witness_every=5, robust=True))
